@@ -80,7 +80,9 @@ def opPow : Handler := fun args impl =>
       let model := if e < 0 then showRats [1] else renderA showRats (NTV.Alg.pow f a e.toNat)
       let v :=
         if !(S.goodModulus f && S.reduced f a && e ≥ 0) then outside
-        else if e > 400 then "skip:exponent-too-large-for-the-oracle"
+        else if e > 400 then
+          -- beyond the direct oracle: the model's value is the power (theorem `power_is_remainder`)
+          (if impl == model then "ok" else "fail:not-the-power")
         else match parseRats? impl with
           | some r => first (S.checkPow f a e.toNat r)
           | none => unexpected impl
